@@ -322,5 +322,15 @@ def fuse_slice(a, b):
         while j < len(b):  # anything leftover on the right?
             result.append(b[j])
             j += 1
+        if (a_has_lists or b_has_lists) and any(
+            isinstance(item, list) for item in result
+        ):
+            if any(isinstance(item, Integral) for item in result):
+                # NumPy treats the integer as an advanced index as well: when
+                # a slice or a new axis separates it from the list, the list's
+                # axis moves to the front of ``x[result]``
+                raise NotImplementedError(
+                    "Can't fuse into an index with a list and an integer"
+                )
         return tuple(result)
     raise NotImplementedError()
